@@ -59,6 +59,10 @@ def cases(draw, kind):
     if kind in ("lhs", "halton") and draw(st.integers(0, 3)) == 0:
         # a declared rounding precision on the parameters does not change what these two designs are
         extra["prec"] = [draw(st.sampled_from([None, 1e-3, 0.1, 0.25, 0.5])) for _ in range(d)]
+    if kind in ("lhs", "halton", "uniform", "random") and "ptype" not in extra and draw(st.integers(0, 3)) == 0:
+        # the generator object was used before, on other bounds; then the bounds were edited ("rebind" a new list /
+        # edit the list "inplace") and generate() is called again: the design belongs to the bounds declared now
+        extra["before"] = {"boxes": [draw(box12()) for _ in range(d)], "how": draw(st.sampled_from(["rebind", "inplace"]))}
     return dict({"kind": kind, "boxes": boxes, "N": N, "seed": draw(st.integers(0, 2 ** 31)),
                  "names": draw(st.sampled_from(NAME_STYLES))}, **extra)
 
@@ -84,8 +88,20 @@ def check_sampler(case):
            "random": ops.RandomGenerator}[kind]
     with Patched((np.random, "RandomState", SeededRS(case["seed"]))):
         with guard(kind):
+            bef = case.get("before")
+            if bef:
+                for p_, b_ in zip(ps, bef["boxes"]):
+                    p_["bounds"] = list(b_)
             g = cls(ps)
             g.init(N)
+            if bef:
+                g.generate()
+                for p_, b_ in zip(ps, boxes):
+                    if bef["how"] == "rebind":
+                        p_["bounds"] = list(b_)
+                    else:
+                        p_["bounds"][0], p_["bounds"][1] = b_[0], b_[1]
+                seed_all(case["seed"])
             raw = [list(v) for v in g.generate()]
             vs = [list(map(float, v)) for v in raw]
     exp_rows = N ** d if kind == "uniform" else N
@@ -148,7 +164,8 @@ def check_sampler(case):
                     raise Violation(kind, "out-of-box%s" % (":integer" if ptype[j] == "integer" else ""),
                                     "%r outside %r" % (x, (lb, ub)))
     return {"nt": nt, "classes": ["d%d" % d, "N>=3" if N >= 3 else "N<3"] + (["integer-parameters"] if "ptype" in case else [])
-            + (["declared-precision"] if case.get("prec") and any(case["prec"]) else [])}
+            + (["declared-precision"] if case.get("prec") and any(case["prec"]) else [])
+            + (["generator-reused-after-bounds-edit"] if case.get("before") else [])}
 
 
 def halton_boundary_items(tier):
